@@ -318,10 +318,31 @@ def _is_empty_lit(t):
     return z3.is_string_value(t) and t.as_string() == ''
 
 
+def _parts(t):
+    """Flatten a (nested) concatenation into its list of parts."""
+    if z3.is_app(t) and t.decl().kind() == z3.Z3_OP_SEQ_CONCAT:
+        out = []
+        for c in t.children():
+            out.extend(_parts(c))
+        return out
+    return [t]
+
+
+def _join(parts):
+    parts = [p for p in parts if not _is_empty_lit(p)]
+    if not parts:
+        return z3.StringVal('')
+    out = parts[0]
+    for p in parts[1:]:
+        out = z3.Concat(out, p)
+    return out
+
+
 def _substr(t, lo, n):
     """str.substr; nested extractions are flattened with the exact identity (SMT-LIB semantics)
         substr(substr(s,a,n0),b,m) = ite(a>=0 and b>=0, substr(s, a+b, min(m, n0-b)), "")
-    and the guard is dropped when the current path condition proves it."""
+    and the guard is dropped when the current path condition proves it. Extractions from concatenations drop the
+    leading parts that lie wholly before `lo` and the trailing parts wholly after `lo+n` (when provable)."""
     if z3.is_app(t) and t.decl().kind() == z3.Z3_OP_ITE:
         c, x, y = t.children()
         return z3.If(c, _substr(x, lo, n), _substr(y, lo, n))
@@ -339,13 +360,31 @@ def _substr(t, lo, n):
         if _prove(cond):
             return inner
         return z3.If(z3.simplify(cond), inner, z3.StringVal(''))
-    if z3.is_app(t) and t.decl().kind() == z3.Z3_OP_SEQ_CONCAT and len(t.children()) == 2:
-        x, y = t.children()
-        lx = z3.Length(x)
-        if _prove(z3.And(lo >= 0, lo + n <= lx)):
-            return _substr(x, lo, n)
-        if _prove(lo >= lx):
-            return _substr(y, z3.simplify(lo - lx), n)
+    if z3.is_app(t) and t.decl().kind() == z3.Z3_OP_SEQ_CONCAT:
+        parts = _parts(t)
+        lo = z3.simplify(lo)
+        n = z3.simplify(n)
+        changed = False
+        while len(parts) > 1 and _prove(lo >= z3.Length(parts[0])):
+            lo = z3.simplify(lo - z3.Length(parts[0]))
+            parts = parts[1:]
+            changed = True
+        # trailing parts that start at or after lo+n contribute nothing
+        while len(parts) > 1:
+            head_len = z3.simplify(sum((z3.Length(p) for p in parts[:-1]), z3.IntVal(0)))
+            if _prove(z3.And(lo >= 0, lo + n <= head_len)):
+                parts = parts[:-1]
+                changed = True
+            else:
+                break
+        if len(parts) == 1:
+            return _substr(parts[0], lo, n)
+        total = z3.simplify(sum((z3.Length(p) for p in parts), z3.IntVal(0)))
+        if _prove(z3.And(lo == 0, n >= total)):
+            return _join(parts)
+        return z3.SubString(_join(parts), lo, n)
+    if _prove(z3.And(lo == 0, n >= z3.Length(t))):
+        return t
     return z3.SubString(t, z3.simplify(lo), z3.simplify(n))
 
 
@@ -359,28 +398,29 @@ def _merge_extracts(a, b):
             if _prove(z3.And(a1 == 0, n1 + n2 >= z3.Length(s1))):
                 return s1
             return z3.SubString(s1, a1, z3.simplify(n1 + n2))
+    # a whole string followed by / preceded by an empty extraction of anything is handled by the simplifier
     return None
 
 
 def _concat(a, b):
-    """Concatenation; adjacent extractions of the same string are merged when the path condition proves
-    the side conditions (also below one level of left-nested concatenation)."""
-    if _is_empty_lit(a):
-        return b
-    if _is_empty_lit(b):
-        return a
-    m = _merge_extracts(a, b)
-    if m is not None:
-        return m
-    if z3.is_app(a) and a.decl().kind() == z3.Z3_OP_SEQ_CONCAT and _is_extract(b):
-        ch = a.children()
-        m = _merge_extracts(ch[-1], b)
-        if m is not None:
-            head = ch[0]
-            for c in ch[1:-1]:
-                head = z3.Concat(head, c)
-            return _concat(head, m)
-    return z3.Concat(a, b)
+    """Concatenation, normalised: flattened, adjacent extractions of the same string merged when the path condition
+    proves the side conditions."""
+    parts = [p for p in _parts(a) + _parts(b) if not _is_empty_lit(p)]
+    out = []
+    for p in parts:
+        if out:
+            m = _merge_extracts(out[-1], p)
+            if m is not None:
+                out[-1] = m
+                # the merged extraction may merge again with its new left neighbour
+                while len(out) > 1:
+                    m2 = _merge_extracts(out[-2], out[-1])
+                    if m2 is None:
+                        break
+                    out[-2:] = [m2]
+                continue
+        out.append(p)
+    return _join(out)
 
 
 class SStr(_SSeq):
